@@ -505,6 +505,62 @@ func subFrames() mon.Sub {
 	}
 }
 
+// subHugeAnnounced: "whole-frame read is the header codec followed by exactly length payload bytes" - also when the
+// header announces far more than any stream will ever hold: ws.ReadFrame / MustReadFrame on a complete minimal header
+// followed by a few dozen bytes never report a frame (lengths around every power of two up to 2^63-1, and within
+// 1 MiB of the top, where size arithmetic in chunked reads wraps).
+func subHugeAnnounced() mon.Sub {
+	var lens []int64
+	for _, sh := range []uint{31, 32, 40, 47, 53, 62, 63} {
+		base := int64(1)<<(sh-1) - 1 + int64(1)<<(sh-1) // 2^sh - 1 without overflowing
+		for _, d := range []int64{0, 1, 2, 1 << 10, 1<<19 - 1, 1 << 19, 1<<20 - 2, 1<<20 - 1, 1 << 20, 1<<20 + 1, 1 << 21} {
+			if base-d > 1<<30 {
+				lens = append(lens, base-d)
+			}
+		}
+	}
+	return mon.Sub{
+		Name: "huge-announced", Exhaustive: true, Required: true,
+		N: func(string) int { return len(lens) * 2 },
+		Do: func(c *mon.C) {
+			L := lens[c.I%len(lens)]
+			h := ref.Header{Fin: true, Op: ref.OpBinary, Masked: c.I/len(lens) == 1, Length: L}
+			if h.Masked {
+				c.Rng.Read(h.Mask[:])
+			}
+			for _, avail := range []int{0, 1, 46, 70000} {
+				c.Count(1)
+				stream := append(ref.EncodeHeader(h), bytes.Repeat([]byte{0x5a}, avail)...)
+				ch := xport.NewChunker(stream, plans[c.I%len(plans)])
+				f, err := ws.ReadFrame(ch)
+				det := map[string]interface{}{"announced_length": L, "masked": h.Masked, "bytes_behind_the_header": avail, "err": fmt.Sprint(err), "payload_returned": len(f.Payload), "consumed": ch.Pos}
+				if err == nil {
+					c.Fail("frames/read/huge-accepted", fmt.Sprintf("ReadFrame returned no error (a payload of %d bytes) for a frame announcing %d bytes on a stream holding %d", len(f.Payload), L, avail), det)
+					return
+				}
+				panicked := func() (p bool) {
+					defer func() { p = recover() != nil }()
+					ws.MustReadFrame(bytes.NewReader(stream))
+					return false
+				}()
+				if !panicked {
+					c.Fail("frames/must/huge-accepted", fmt.Sprintf("MustReadFrame returned a frame for a header announcing %d bytes on a stream holding %d", L, avail), det)
+					return
+				}
+			}
+			c.Classf("len~2^%d masked=%v", 63-leadingZeros(L), h.Masked)
+		},
+	}
+}
+
+func leadingZeros(x int64) int {
+	n := 0
+	for i := 62; i >= 0 && x>>uint(i)&1 == 0; i-- {
+		n++
+	}
+	return n
+}
+
 func main() {
 	mon.Main(&mon.Spec{
 		Property: "C01",
@@ -516,6 +572,6 @@ func main() {
 			"reference codec harness/ref written from RFC 6455 §5.2 is correct",
 			"the streaming decoder is observed through wsutil.Reader{SkipHeaderCheck:true}.NextFrame",
 		},
-		Subs: []mon.Sub{subEncodeGrid(), subEncodeRandom(), subBytesPrefix(), subBytesRandom(), subFrames(), subStreamSequences(), subSourceKinds(), subDestKinds()},
+		Subs: []mon.Sub{subEncodeGrid(), subEncodeRandom(), subBytesPrefix(), subBytesRandom(), subFrames(), subStreamSequences(), subSourceKinds(), subDestKinds(), subHugeAnnounced()},
 	})
 }
